@@ -19,7 +19,7 @@ def T(tier, q, t):
 def check_c01(tier, seed, replay=None):
     v = Verdict('C01', tier, seed)
     bins = build_many([('h_exact', 'plain'), ('h_exact', 'asan')])
-    n = T(tier, 4000, 40000)
+    n = T(tier, 4000, 200000)
     agg = run_cases(bins[('h_exact', 'plain')], 'c01', seed, n, opts=dict(max_n=T(tier, 40, 80)))
     v.absorb(agg)
     na = T(tier, 150, 3000)
@@ -58,7 +58,7 @@ def oracle_vs_networkx(binary, seed, n, max_n):
 def check_c02(tier, seed, replay=None):
     v = Verdict('C02', tier, seed)
     bins = build_many([('h_exact', 'plain'), ('h_exact', 'asan')])
-    n = T(tier, 4000, 40000)
+    n = T(tier, 4000, 150000)
     agg = run_cases(bins[('h_exact', 'plain')], 'c02', seed, n, opts=dict(max_n=T(tier, 30, 80)))
     v.absorb(agg)
     agg2 = run_cases(bins[('h_exact', 'asan')], 'c02', seed + 1000003, T(tier, 120, 2500), opts=dict(max_n=T(tier, 20, 36)), env=ASAN_ENV, source='h_exact(asan+asserts):c02')
@@ -77,7 +77,7 @@ def check_c02(tier, seed, replay=None):
 def check_c09(tier, seed, replay=None):
     v = Verdict('C09', tier, seed)
     bins = build_many([('h_exact', 'plain')])
-    agg = run_cases(bins[('h_exact', 'plain')], 'c09', seed, T(tier, 4000, 30000), opts=dict(max_n=T(tier, 22, 40)))
+    agg = run_cases(bins[('h_exact', 'plain')], 'c09', seed, T(tier, 4000, 200000), opts=dict(max_n=T(tier, 22, 40)))
     v.absorb(agg)
     cov = base_coverage(agg, 'graphs with decimal weights k/1000 (tie-rich sets {0.1,0.2,0.3,0.7}, one-decimal, arbitrary thousandths) and binary weights with 50-bit '
                         'mantissas in [1e-3,1e3] whose sums are inexact in double; six exact variants; oracle in exact integer units; tolerance relative 1e-9; '
@@ -89,7 +89,7 @@ def check_c09(tier, seed, replay=None):
 def check_c08(tier, seed, replay=None):
     v = Verdict('C08', tier, seed)
     bins = build_many([('h_exact', 'plain')])
-    agg = run_cases(bins[('h_exact', 'plain')], 'c08', seed, T(tier, 96, 1500), opts=dict(min_n=T(tier, 30, 40), max_n=T(tier, 160, 400), variants_per_xform=T(tier, 2, 6)), chunk=T(tier, 1, 4), timeout=1800)
+    agg = run_cases(bins[('h_exact', 'plain')], 'c08', seed, T(tier, 96, 600), opts=dict(min_n=T(tier, 30, 40), max_n=T(tier, 160, 320), variants_per_xform=T(tier, 2, 6)), chunk=T(tier, 1, 4), timeout=1800)
     v.absorb(agg)
     cov = base_coverage(agg, 'base graphs with 30-400 vertices (sparse/dense random, grids, tori, hypercubes, cycles with chords, small families); six exact variants must agree; '
                         'ten transformed copies per base graph (relabel, edge order, both, heap layout via scrambling allocator, isolated vertices, pendant trees, disjoint union, '
@@ -102,7 +102,7 @@ def check_c08(tier, seed, replay=None):
 def check_c05(tier, seed, replay=None):
     v = Verdict('C05', tier, seed)
     bins = build_many([('h_approx', 'plain'), ('h_approx', 'asan')])
-    agg = run_cases(bins[('h_approx', 'plain')], 'c05', seed, T(tier, 4000, 30000), opts=dict(max_n=T(tier, 26, 60)))
+    agg = run_cases(bins[('h_approx', 'plain')], 'c05', seed, T(tier, 4000, 150000), opts=dict(max_n=T(tier, 26, 60)))
     v.absorb(agg)
     # descriptors must stay usable with the caller's maps after return: read w[e] through every one under ASan
     agg2 = run_cases(bins[('h_approx', 'asan')], 'c05', seed + 1000003, T(tier, 120, 2500), opts=dict(max_n=T(tier, 18, 30), deref=1), env=ASAN_ENV, source='h_approx(asan,deref):c05')
@@ -118,7 +118,7 @@ def check_c05(tier, seed, replay=None):
 def check_c06(tier, seed, replay=None):
     v = Verdict('C06', tier, seed)
     bins = build_many([('h_approx', 'plain')])
-    agg = run_cases(bins[('h_approx', 'plain')], 'c06', seed, T(tier, 4000, 30000), opts=dict(max_n=T(tier, 26, 60)))
+    agg = run_cases(bins[('h_approx', 'plain')], 'c06', seed, T(tier, 4000, 300000), opts=dict(max_n=T(tier, 26, 60)))
     v.absorb(agg)
     cov = base_coverage(agg, 'as C05 plus adversarial weights (heavy chord closing a light cycle, geometric weights), k = 0 in ~8% of cases; oracle optimum by Horton+Gauss (self-validated); '
                         'emitted <= (2k-1)*OPT in exact integers, == OPT for k=1, k=0 must throw and emit nothing (counting iterator); non-trivial = cycle space dimension >= 2',
@@ -130,7 +130,7 @@ def check_c06(tier, seed, replay=None):
 def check_c15(tier, seed, replay=None):
     v = Verdict('C15', tier, seed)
     bins = build_many([('h_approx', 'plain')])
-    agg = run_cases(bins[('h_approx', 'plain')], 'c15', seed, T(tier, 5000, 60000), opts=dict(max_n=T(tier, 30, 70)))
+    agg = run_cases(bins[('h_approx', 'plain')], 'c15', seed, T(tier, 5000, 600000), opts=dict(max_n=T(tier, 30, 70)))
     v.absorb(agg)
     cov = base_coverage(agg, 'BaseApproxSpannerAlgorithm constructed on generated (graph, k), k in 1..6 and n; spanner, translation map, vertex map and dropped edges read through the PARMCB_VERIF accessors and '
                         'cross-checked with a spy exact phase that records what it is handed; oracle: bijection, subgraph with input weights, partition, per dropped edge a detour of <= 2k-1 retained edges none heavier (BFS), '
@@ -142,7 +142,7 @@ def check_c15(tier, seed, replay=None):
 def check_c12(tier, seed, replay=None):
     v = Verdict('C12', tier, seed)
     bins = build_many([('h_parts', 'plain')])
-    agg = run_cases(bins[('h_parts', 'plain')], 'c12', seed, T(tier, 1500, 20000), opts=dict(max_n=T(tier, 16, 40)))
+    agg = run_cases(bins[('h_parts', 'plain')], 'c12', seed, T(tier, 1500, 100000), opts=dict(max_n=T(tier, 16, 40)))
     v.absorb(agg)
     cov = base_coverage(agg, 'tie-saturated graphs (85% unit/{1,2}/{1,2,3} weights; grids, hypercubes, K_ab, complete graphs), SPTree for every source, weight types double and int; oracle: exact Dijkstra, '
                         'pred walk, child lists, first(), path symmetry and sub-path optimality over all ordered pairs; non-trivial = graph has a cycle and >= 6 connected ordered pairs',
@@ -166,7 +166,7 @@ def check_c13(tier, seed, replay=None):
 def check_c14(tier, seed, replay=None):
     v = Verdict('C14', tier, seed)
     bins = build_many([('h_parts', 'plain')])
-    agg = run_cases(bins[('h_parts', 'plain')], 'c14', seed, T(tier, 2500, 20000), opts=dict(max_n=T(tier, 26, 44)))
+    agg = run_cases(bins[('h_parts', 'plain')], 'c14', seed, T(tier, 2500, 200000), opts=dict(max_n=T(tier, 26, 44)))
     v.absorb(agg)
     cov = base_coverage(agg, 'tie-rich graphs; Horton, FVS and ISO builders; every candidate walked (closing edge is a non-tree edge, two root paths meeting only at the root, recorded == true weight); '
                         'FVS and ISO candidates identified by (root, edge) inside Horton; greedy with GF(2) independence over each collection reaches dimension and oracle optimum; non-trivial = dimension >= 2',
@@ -229,7 +229,7 @@ def check_c18(tier, seed, replay=None):
 def check_c10(tier, seed, replay=None):
     v = Verdict('C10', tier, seed)
     bins = build_many([('h_dimacs', 'plain'), ('h_dimacs', 'asan')])
-    agg = run_cases(bins[('h_dimacs', 'plain')], 'c10', seed, T(tier, 20000, 1000000))
+    agg = run_cases(bins[('h_dimacs', 'plain')], 'c10', seed, T(tier, 20000, 3000000))
     v.absorb(agg)
     agg2 = run_cases(bins[('h_dimacs', 'asan')], 'c10', seed + 1000003, T(tier, 3000, 100000), env=ASAN_ENV, source='h_dimacs(asan):c10')
     v.absorb(agg2)
@@ -284,7 +284,7 @@ def check_c04(tier, seed, replay=None):
     bins = build_many([('h_mpi', 'mpi')])
     b = bins[('h_mpi', 'mpi')]
     agg = lib.Agg()
-    ncases = T(tier, 80, 600); chunk = T(tier, 40, 100); reps = T(tier, 1, 3)
+    ncases = T(tier, 80, 1500); chunk = T(tier, 40, 150); reps = T(tier, 1, 3)
     jobs = []
     for rep in range(reps):
         for P in MPI_RANKS:
